@@ -37,6 +37,8 @@ F_UUID = "C02-id-noncanonical-uuid-text"
 F_CONF = "C02-confidence-range-unchecked"
 F_NL = "C02-dollar-anchor-trailing-newline"
 F_MD6 = "C02-md6-hash-regex-unanchored"
+F_TOP = "C02-toplevel-extension-without-extensions-property"
+F_EXT0 = "C02-empty-extensions-dictionary"
 
 
 def _ident(**kw):
@@ -66,6 +68,13 @@ def witness_cases():
         {"type": "file", "spec_version": "2.1", "id": "file--" + U, "hashes": {"MD5": MD5 + "\n"}})
     add("hash-md6-trailing-garbage", "construct", "2.0/ExternalReference",
         {"source_name": "s", "url": "http://x", "hashes": {"MD6": "f" * 32 + "zz!"}})
+    top = {"foo": {"extension_type": "toplevel-property-extension"}}
+    add("toplevel-extension-v20", "parse", "2.0/Identity",
+        {"type": "identity", "id": "identity--" + U, "created": T0, "modified": T0, "name": "n", "identity_class": "individual",
+         "extensions": top, "anything": "y"})
+    add("toplevel-extension-no-slot", "construct", "2.1/ExternalReference",
+        {"source_name": "s", "url": "http://x", "extensions": top, "anything": "y"})
+    add("empty-extensions", "parse", "2.1/Identity", _ident(extensions={}))
     add("selector-newline", "construct", "2.1/GranularMarking",
         {"selectors": ["name\n"], "marking_ref": "marking-definition--" + U})
     add("interop-id-newline", "parse", "2.1/Identity", _ident(id="identity--" + U + "\n"), interop=True)
@@ -140,7 +149,41 @@ def norm_md6(j):
     return j
 
 
-NORMALISERS = [(F_UUID, norm_uuid), (F_CONF, norm_conf), (F_NL, norm_nl), (F_MD6, norm_md6)]
+def norm_ext0(j):
+    j = copy.deepcopy(j)
+
+    def go(x):
+        if isinstance(x, dict):
+            if x.get("extensions") == {}:
+                del x["extensions"]
+            for w in x.values():
+                go(w)
+        elif isinstance(x, list):
+            for w in x:
+                go(w)
+    go(j)
+    return j
+
+
+_SPEC_SLOTS = {}
+
+
+def norm_top(j, cid=None):
+    """Only for a class without an `extensions` property whose output carries an `extensions` member with a
+    toplevel-property-extension entry: drop that member and the properties the class does not define."""
+    if not _SPEC_SLOTS:
+        for k, c in tr_tables.load_spec(common.VERIF)["classes"].items():
+            _SPEC_SLOTS[k] = {s["name"] for s in c["slots"]}
+    names = _SPEC_SLOTS.get(cid)
+    ext = j.get("extensions") if isinstance(j, dict) else None
+    if names is None or "extensions" in names or not isinstance(ext, dict) or not any(
+            isinstance(e, dict) and e.get("extension_type") == "toplevel-property-extension" for e in ext.values()):
+        return j
+    return {k: v for k, v in j.items() if k in names}
+
+
+NORMALISERS = [(F_UUID, norm_uuid), (F_CONF, norm_conf), (F_NL, norm_nl), (F_MD6, norm_md6), (F_EXT0, norm_ext0),
+               (F_TOP, norm_top)]
 
 
 def classify_invalid(items, pats):
@@ -150,13 +193,13 @@ def classify_invalid(items, pats):
     for n, (cid, j) in enumerate(items):
         alts = []
         for fid, f in NORMALISERS:
-            k = f(j)
+            k = f(j, cid) if f is norm_top else f(j)
             if k != j:
                 alts.append(([fid], k))
         if len(alts) > 1:
             k = j
             for fid, f in NORMALISERS:
-                k = f(k)
+                k = f(k, cid) if f is norm_top else f(k)
             alts.append(([a[0][0] for a in alts], k))
         for fids, k in alts:
             jobs.append((cid, k))
